@@ -123,32 +123,44 @@ fn probe_source(
                 match &r.builder {
                     None => na.push(json!({"ev": "probe_na", "case": case_no, "probe": jn, "why": "no builder"})),
                     Some(_) => {
-                        // property name -> (field ident, type ident) through the public API
+                        // JSON property name -> (field ident, type ident): the wire name comes from the
+                        // syn inventory (serde rename), ident and type from the public API
                         let mut props: Vec<(String, String, String)> = vec![];
+                        let item = items.iter().find(|it| it["mod"] == "" && it["kind"] == "struct" && it["name"] == bare);
                         if let Some(id) = &r.id {
                             if let Ok(t) = ts.get_type(id) {
                                 if let typify_impl::TypeDetails::Struct(st) = t.details() {
                                     for pi in st.properties_info() {
                                         let pt = ts.get_type(&pi.type_id).map(|t| t.ident().to_string()).unwrap_or_default();
-                                        props.push((pi.name.to_string(), pi.name.to_string(), pt));
+                                        let wire = item
+                                            .and_then(|it| it["fields"].as_array())
+                                            .and_then(|fs| fs.iter().find(|f| f["name"] == pi.name))
+                                            .and_then(|f| f["wire"].as_str())
+                                            .unwrap_or(pi.name)
+                                            .to_string();
+                                        props.push((wire, pi.name.to_string(), pt));
                                     }
                                 }
                             }
                         }
+                        let idents: Vec<String> = props.iter().map(|x| format!("{:?}", x.1)).collect();
+                        let idents = format!("&[{}]", idents.join(", "));
                         let mode = p.get("mode").and_then(|m| m.as_str()).unwrap_or("set");
                         if mode == "from_struct" {
                             // struct -> builder -> struct
                             let mut text = String::new();
                             abs::untag_text(&p["val"], &mut text);
-                            let _ = writeln!(s, "        let x: {} = serde_json::from_str({}).unwrap();", ty, raw(&text));
+                            // only when the object is a value of the struct at all
+                            let _ = writeln!(s, "        if let Ok(x) = serde_json::from_str::<{}>({}) {{", ty, raw(&text));
                             let _ = writeln!(s, "        let b: {} = x.into();", r.builder.as_ref().unwrap());
                             let _ = writeln!(s, "        let r: Result<{}, _> = b.try_into();", ty);
-                            let _ = writeln!(s, "        support::p_built({}, {}, r);", case_no, jn);
+                            let _ = writeln!(s, "        support::p_built({}, {}, r, {});", case_no, jn, idents);
+                            let _ = writeln!(s, "        }} else {{ support::emit(serde_json::json!({{\"ev\": \"probe_na\", \"case\": {}, \"probe\": {}, \"why\": \"object is not a value of the struct\"}})); }}", case_no, jn);
                         } else {
                             let _ = writeln!(s, "        let b = <{}>::builder();", ty);
                             for step in p["steps"].as_array().unwrap() {
-                                let field = step["field"].as_str().unwrap();
-                                let fty = props.iter().find(|x| x.0 == field).map(|x| x.2.clone()).unwrap_or_default();
+                                let wire = step["field"].as_str().unwrap();
+                                let (field, fty) = props.iter().find(|x| x.0 == wire).map(|x| (x.1.clone(), x.2.clone())).unwrap_or_default();
                                 if step.get("bad").and_then(|b| b.as_bool()).unwrap_or(false) {
                                     let _ = writeln!(s, "        let b = b.{}({});", field, step["expr"].as_str().unwrap());
                                 } else {
@@ -162,7 +174,7 @@ fn probe_source(
                                 }
                             }
                             let _ = writeln!(s, "        let r: Result<{}, _> = b.try_into();", ty);
-                            let _ = writeln!(s, "        support::p_built({}, {}, r);", case_no, jn);
+                            let _ = writeln!(s, "        support::p_built({}, {}, r, {});", case_no, jn, idents);
                         }
                     }
                 }
